@@ -63,7 +63,8 @@ def case_strategy(draw):
         nb = draw(st.integers(0, 12))
         kw['placed'] = sorted(set(lo + span * (0.5 * (1 + draw(uf)) * 1.4 - 0.2) for _ in range(nb)))
     elif opt == 'bkspace':
-        kw['bkspace'] = span * 10 ** (draw(st.integers(-15, 15)) / 10.0)
+        # any spacing, or one that divides the data range exactly (0.1 into 1, 0.4 into 10, ...)
+        kw['bkspace'] = span * 10 ** (draw(st.integers(-15, 15)) / 10.0) if draw(st.booleans()) else span / draw(st.sampled_from([10, 5, 25, 3, 4, 8, 20, 12, 7]))
     elif opt == 'nbkpts':
         kw['nbkpts'] = draw(st.integers(0, 20))
     else:
@@ -112,6 +113,14 @@ def body(case):
         if nord > 1:
             check(bool(np.all(t[:nord - 1] <= lo) and np.all(t[len(t) - nord + 1:] >= hi)), 'knots:padding-inside-range')
         check(np.asarray(b.mask).shape == t.shape and bool(np.all(b.mask)), 'knots:mask-not-all-true')
+        if case['opt'] == 'bkspace':
+            # the documented meaning of the option: breakpoints `bkspace` apart.  When the spacing divides the data range exactly
+            # (the quotient is a whole number in double precision) there are range/bkspace + 1 of them, exactly that far apart
+            q = (x.max() - x.min()) / kw['bkspace']
+            if q == int(q) and q >= 1:
+                inner_t = t[nord - 1:len(t) - nord + 1]
+                check(len(inner_t) == int(q) + 1, 'knots:bkspace-not-honoured', lambda: dict(bkspace=kw['bkspace'], range=float(x.max() - x.min()), breakpoints=len(inner_t), want=int(q) + 1))
+                note_label('bkspace-divides-range')
         nc = len(t) - nord
         check(np.asarray(b.coeff).shape == (nc,), 'knots:coeff-shape', lambda: dict(got=np.asarray(b.coeff).shape, want=nc))
     # coefficients and evaluation points
